@@ -155,6 +155,47 @@ pub fn run_one(g: &Grid, dev: &[(usize, usize)], window: (u64, u64), horizon_s: 
     Outcome { violations: v, choice_points: res.choice_points, settled_at: Some(settled.saturating_sub(slave_at)), worst_after }
 }
 
+/// a better master (clock 3 ms away from the first one's) joins the segment after the slave has
+/// converged: the BMCA re-targets the slave port, and the slave's clock then reaches the new
+/// master's time and stays there, under the same bounds counted from the change of parent
+pub fn run_failover(g: &Grid) -> Vec<(String, String)> {
+    let mut spec = spec_of(g, 0, (0, 0));
+    let mut better = NodeSpec::default();
+    better.identity = [0x30, 0, 0, 0, 0, 0, 0, 3];
+    better.priority_1 = 5;
+    better.ports = vec![PortSpec { log_sync: g.log_sync, log_delay: g.log_delay, ..Default::default() }];
+    spec.nodes.push(better);
+    spec.segments = vec![vec![(0, 0), (1, 0), (2, 0)]];
+    spec.bmca_phase_ns.push(SEC / 10 + 666_000_000);
+    spec.oscillators.push(Some((EPOCH_NS + 3_000_000, 0.0)));
+    spec.kalman.push(false);
+    spec.one_step.push(g.one_step);
+    let t_join = 300 * SEC;
+    spec.horizon_ns = t_join + t_acq(g) + 200 * SEC;
+    let faults = vec![(0, Fault::Silence(2)), (t_join, Fault::Unsilence(2))];
+    let res = simulate(&spec, &faults, &mut Choices::default(), SEC / 4);
+    if let Some(p) = &res.panicked {
+        return vec![("panic".into(), p.clone())];
+    }
+    let b_id = spec.nodes[2].identity;
+    let Some(t_sw) = res.snapshots.iter().find(|s| s.t >= t_join && s.nodes[1].parent.clock == b_id && s.nodes[1].states[0] == PS::Slave).map(|s| s.t) else {
+        return vec![("failover:never-slave-of-the-better-master".into(), format!("a better master announces from t = {} s on; the slave port's parent is still {:?} at the horizon", t_join / SEC, res.snapshots.last().map(|s| s.nodes[1].parent.clone())))];
+    };
+    let mut v = vec![];
+    let bound = bound_bits(g, &[]);
+    let deadline = t_sw + t_acq(g);
+    if let Some(s) = res.snapshots.iter().filter(|s| s.t > deadline && (s.offsets[1] - s.offsets[2]).abs() > bound).last() {
+        v.push((
+            "failover:offset-to-new-master-not-within-bound".into(),
+            format!("the parent changed at t = {:.2} s; the true offset to the new master is {:.1} ns at t = {:.2} s (bound {:.1} ns)", t_sw as f64 / 1e9, (s.offsets[1] - s.offsets[2]) as f64 / 4294967296.0, s.t as f64 / 1e9, bound as f64 / 4294967296.0),
+        ));
+    }
+    if let Some(c) = res.clock_cmds.iter().filter(|c| c.1 == 1 && c.0 > deadline && matches!(c.3, ClockCmd::Step(_))).last() {
+        v.push(("failover:step-after-convergence".into(), format!("the clock was stepped at t = {:.2} s, more than {:.0} s after the parent changed", c.0 as f64 / 1e9, t_acq(g) as f64 / 1e9)));
+    }
+    v
+}
+
 pub fn grid(tier: Tier) -> Vec<Grid> {
     let mut out = vec![];
     let offsets: Vec<i64> = if tier == Tier::Thorough { vec![-10_000_000_000, -1_000_000_000, -30_000_000, -900_000, 0, 500_000, 300_000_000, 2_500_000_000, 10_000_000_000] } else { vec![-10_000_000_000, -900_000, 0, 300_000_000, 2_500_000_000] };
@@ -262,7 +303,8 @@ pub fn run(tier: Tier) -> i32 {
     let viol = |g: &Grid, w: (u64, u64), dev: &[(usize, usize)], v: Vec<(String, String)>, viols: &mut Vec<Violation>| {
         for (sig, msg) in v {
             if !viols.iter().any(|x| x.signature == sig) {
-                viols.push(Violation { signature: sig, message: format!("{msg} [grid point {:?}; choice window {:?} s; deviations {:?}]", g, w, dev), replay: json!({"grid": g, "dev": dev, "window": [w.0, w.1]}) });
+                let fo = sig.starts_with("failover:");
+                viols.push(Violation { signature: sig, message: format!("{msg} [grid point {:?}; choice window {:?} s; deviations {:?}]", g, w, dev), replay: json!({"grid": g, "dev": dev, "window": [w.0, w.1], "failover": fo}) });
             }
         }
     };
@@ -295,6 +337,23 @@ pub fn run(tier: Tier) -> i32 {
             .collect();
         results.extend(r);
         rep.cover("very_long_executions", json!({"count": long.len(), "horizon_s": VERY_LONG_HORIZON_S}));
+    }
+    // master change: a better master joins after convergence
+    {
+        let pts: Vec<Grid> = [(20.0f64, 100_000u64, 2_000u64, 0i8, 2u8, false), (-150.0, 1_000, 0, -3, 0, false), (150.0, 400_000, 20_000, 1, 2, true), (0.0, 1_000, 20_000, -1, 1, false)]
+            .iter()
+            .map(|&(ppm, d, j, l, pat, os)| Grid { offset_ns: 500_000, ppm, delay_ns: d, jitter_ns: j, log_sync: l, log_delay: l, pattern: pat, tx_ts_latency_ns: 0, one_step: os })
+            .collect();
+        let r: Vec<R> = pts
+            .par_iter()
+            .map(|g| {
+                let mut viols = vec![];
+                viol(g, (0, 0), &[], run_failover(g), &mut viols);
+                (1, viols, None, 0, 0)
+            })
+            .collect();
+        results.extend(r);
+        rep.cover("master_change_executions", json!(pts.len()));
     }
     // the recorded history of the known finding (DESIGN.md 8.3), in every tier: a constant delay,
     // one frame of the steady-state window delayed by J
@@ -425,6 +484,13 @@ pub fn run(tier: Tier) -> i32 {
 
 pub fn replay(r: &serde_json::Value) {
     let g: Grid = serde_json::from_value(r["grid"].clone()).expect("grid");
+    if r["failover"].as_bool() == Some(true) {
+        println!("grid {:?}, a better master joins at t = 300 s", g);
+        for (s, m) in run_failover(&g) {
+            println!("VIOLATION {s} :: {m}");
+        }
+        return;
+    }
     let dev: Vec<(usize, usize)> = serde_json::from_value(r["dev"].clone()).unwrap_or_default();
     let w: (u64, u64) = match r["window"].as_array() {
         Some(a) if a.len() == 2 => (a[0].as_u64().unwrap_or(0), a[1].as_u64().unwrap_or(0)),
